@@ -1068,6 +1068,60 @@ Proof.
   - destruct (c_more c); intros H _; injection H as <- <-; reflexivity.
 Qed.
 
+(* the report only grows, so a run that reports nothing never changed the tree *)
+Lemma step_rem_grows var orc pol c fin c' :
+  step var orc pol c = Ok (fin, c') -> exists l, c_rem c' = c_rem c ++ l.
+Proof.
+  unfold step. destruct (c_i c <? length (c_dxes c))%nat.
+  - destruct (nth_error (c_dxes c) (c_i c)) as [g|]; cbn [of_opt bind]; [|discriminate].
+    destruct (remove_run var pol false (guid_pred g) (c_img c) (c_nx c)) as [r| | |];
+      cbn [bind]; try discriminate.
+    destruct (snd (orc (length (c_log c)) (fst (fst r))) =? 1).
+    { intro H. injection H as <- <-. exists []. cbn. rewrite app_nil_r. reflexivity. }
+    destruct (fst (orc (length (c_log c)) (fst (fst r))) && _); [discriminate|].
+    destruct (fst (orc (length (c_log c)) (fst (fst r)))).
+    { intro H. injection H as <- <-. exists [g]. reflexivity. }
+    destruct (v_unwind var).
+    { intro H. injection H as <- <-. exists []. cbn. rewrite app_nil_r. reflexivity. }
+    destruct (call_undo (fst (fst r)) (snd (fst r))) as [w| | |]; cbn [bind]; try discriminate.
+    intro H. injection H as <- <-. exists []. cbn. rewrite app_nil_r. reflexivity.
+  - destruct (c_more c); intro H; injection H as <- <-; exists []; cbn; rewrite app_nil_r; reflexivity.
+Qed.
+
+Lemma run_rem_grows var orc pol : forall fuel c cf,
+  run fuel var orc pol c = Ok cf -> exists l, c_rem cf = c_rem c ++ l.
+Proof.
+  induction fuel as [|k IH]; intros c cf H; cbn [run] in H; [discriminate|].
+  destruct (step var orc pol c) as [[fin c']| | |] eqn:E; cbn [bind fst snd] in H; try discriminate.
+  destruct (step_rem_grows _ _ _ _ _ _ E) as (l & Hl).
+  destruct fin; cbn in H.
+  - injection H as <-. exists l. exact Hl.
+  - destruct (IH _ _ H) as (l' & Hl'). exists (l ++ l'). rewrite Hl', Hl, app_assoc. reflexivity.
+Qed.
+
+Lemma run_fixed_unreported orc pol : forall fuel c cf,
+  run fuel fixed orc pol c = Ok cf -> c_rem cf = c_rem c -> c_img cf = c_img c.
+Proof.
+  induction fuel as [|k IH]; intros c cf H Hr; cbn [run] in H; [discriminate|].
+  destruct (step fixed orc pol c) as [[fin c']| | |] eqn:E; cbn [bind fst snd] in H; try discriminate.
+  destruct (step_rem_grows _ _ _ _ _ _ E) as (l & Hl).
+  destruct fin; cbn in H.
+  - injection H as <-. eapply step_fixed_unreported; eauto.
+  - destruct (run_rem_grows _ _ _ _ _ _ H) as (l' & Hl').
+    assert (l = [] /\ l' = []).
+    { rewrite Hl', Hl, <- app_assoc in Hr. apply (f_equal (@length Z)) in Hr.
+      rewrite !app_length in Hr. destruct l, l'; cbn in Hr; try lia. auto. }
+    destruct H0 as [-> ->]. rewrite app_nil_r in Hl, Hl'.
+    rewrite (IH _ _ H Hl'). eapply step_fixed_unreported; eauto.
+Qed.
+
+Lemma clean_unreported orc pol pred img nx c :
+  dxe_clean fixed orc pol pred img nx = Ok c -> c_rem c = [] -> c_img c = img.
+Proof.
+  unfold dxe_clean, init. destruct (cand_guids pred img) as [|g l]; cbn [bind]; [discriminate|].
+  intros H Hr. apply run_fixed_unreported in H; [exact H|exact Hr].
+Qed.
+
 (* ---- the invariant of the repaired cleaner ---- *)
 
 Section Cleaner.
